@@ -54,7 +54,7 @@ def gen_seq(rng, allow_bad):
         r = rng.random()
         live = [i for i, h in enumerate(hs) if not h["released"]]
         if r < 0.3 or not hs:
-            k = rng.choice([1, 1, 2, 3, 4, 5, 6])
+            k = rng.choice([1, 1, 2, 3, 4, 5, 6, 7, 8])
             mops.append("N:%d" % k)
             lines.append("new %d %d" % (k, rng.randint(0, 9)))
             hs.append({"kind": k, "owned": True, "released": False})
@@ -87,7 +87,7 @@ def gen_seq(rng, allow_bad):
             hs[h]["released"] = True
         elif r < 0.92:
             h = rng.randrange(len(hs))           # also an already released handle: must be a no-op
-            if hs[h]["kind"] in (4, 6) and not hs[h]["released"] and rng.random() < 0.7:
+            if hs[h]["kind"] in (4, 6, 7) and not hs[h]["released"] and rng.random() < 0.7:
                 mops += ["M:%d" % h, "R:%d" % h]       # ShroudCopyStringAndFree reads, then releases
                 lines.append("copyfree %d" % h)
             else:
